@@ -16,6 +16,12 @@ collapse), and the flag `direct` says whether `bases[0]` is the root class.  For
 `k in base.registry` is false (every class gets its OWN empty `registry` dict in
 `SpecSetMeta.__new__`), so nothing is wired — `regEntry` mirrors exactly that test.
 
+Execution contexts are opaque KEYS (`Comp`) with no parent relation, because that is the rule of the code:
+the active context is the broker key `ctx.__class__` (collect.py:249, hydration.py:70, __init__.py:148), a
+context class derived from another context class (JBossContext(HostContext)) is a key of its own, every class
+`issubclass` of ExecutionContext at any depth is collected by `_get_ctx_dependencies`, and an implementation
+declared for the parent context requires the parent's key — it is not declared for the derived context.
+
 The second half of this file (`HClass`, `hRegister`, `hWorld`) is the general shape: every class carries its
 `parents` chain and may RE-DECLARE registry points; the flat model is its special case and the driver checks
 that the two agree where both apply.
